@@ -103,4 +103,93 @@ def namesOKb (m : MRS) : Bool :=
 /-- all hypotheses of `isIsomorphic_renamed` / `_reordered` / `faithful_labels_partial` on one MRS -/
 def encodingHyps (m : MRS) : Bool := namesOKb m && decide (NoParallel m) && rowsOK m
 
+/-! ## the input space of the faithfulness theorem and the MRS-level notion of isomorphism -/
+
+/-- a string `str.split()` returns unchanged: non-empty, no blank -/
+def WordOK (w : List Char) : Prop := w ≠ [] ∧ ' ' ∉ w
+
+def noLower (s : List Char) : Prop := ∀ c ∈ s, c.isLower = false
+def hasLower (s : List Char) : Prop := ∃ c ∈ s, c.isLower = true
+
+/-- role names: non-empty, no blank, no lower-case letter (`ARG1`, `RSTR`, `L-INDEX`) -/
+def RoleOK (r : Role) : Prop := WordOK r.toList ∧ noLower r.toList
+def hrelNames : List String := ["qeq", "lheq", "outscopes"]
+/-- handle-constraint relations -/
+def HRelOK (s : String) : Prop := s ∈ hrelNames
+/-- individual-constraint relations: lower-case words other than the handle-constraint relations and
+`eq-scope` -/
+def IRelOK (s : String) : Prop := hasLower s.toList ∧ s ∉ hrelNames ∧ s.toList ≠ eqScope
+def PredOK (s : String) : Prop := '(' ∉ normalizePred s ∧ '{' ∉ normalizePred s
+def CargOK (c : String) : Prop := ')' ∉ c.toList
+
+/-- the input space of the faithfulness theorem (all clauses decidable) -/
+structure InSpace (properties : Bool) (m : MRS) : Prop where
+  names : NamesOK m
+  nopar : NoParallel m
+  roles : ∀ e ∈ m.rels, ∀ a ∈ e.args, RoleOK a.1
+  rolesNodup : ∀ e ∈ m.rels, (e.args.map (·.1)).Nodup
+  hrel : ∀ h ∈ m.hcons, HRelOK h.rel
+  irel : ∀ c ∈ m.icons, IRelOK c.rel
+  preds : ∀ e ∈ m.rels, PredOK e.predicate
+  cargs : ∀ e ∈ m.rels, ∀ c, e.carg = some c → CargOK c
+  clean : ∀ g, mkIsoGraph properties m = .ok g → cleanGraph g = true
+
+/-- `(constant)` -/
+def cargPart (e : EP) : Label :=
+  match e.carg with
+  | some c => ['('] ++ c.toList ++ [')']
+  | none => []
+
+/-- `{PROP=val|…}` of the intrinsic variable, when properties are compared and there are any -/
+def propPart (properties : Bool) (m : MRS) (e : EP) : Label :=
+  let props : Props := match e.iv with
+    | some v => m.props v
+    | none => []
+  if properties && !props.isEmpty then propString props else []
+
+/-- the predications `e1` of `m1` and `e2` of `m2` correspond under the variable map `σ` -/
+structure EPEq (properties : Bool) (σ : Var → Var) (m1 m2 : MRS) (e1 e2 : EP) : Prop where
+  pred : normalizePred e1.predicate = normalizePred e2.predicate
+  carg : e1.carg = e2.carg
+  props : propPart properties m1 e1 = propPart properties m2 e2
+  label : σ e1.label = e2.label
+  args : (e1.args.map (fun a => (a.1, σ a.2))).Perm e2.args
+
+/-- **MRS isomorphism** (no graph involved): `σ` is a bijection from the variables of `m1` onto those
+of `m2`; the predications can be paired off so that paired predications have the same normalised
+predicate, the same constant, the same canonical property text of the intrinsic variable (when
+properties are compared), `σ`-related labels (scopes) and `σ`-related role-labelled arguments; handle
+constraints and individual constraints correspond under `σ` as multisets. -/
+structure MRSIsoVia (properties : Bool) (σ : Var → Var) (m1 m2 : MRS) : Prop where
+  inj : ∀ v ∈ filledVars m1, ∀ w ∈ filledVars m1, σ v = σ w → v = w
+  onto : ∀ w, w ∈ filledVars m2 ↔ ∃ v ∈ filledVars m1, σ v = w
+  rels : ∃ ps : List (EP × EP), (ps.map (·.1)).Perm m1.rels ∧ (ps.map (·.2)).Perm m2.rels
+    ∧ ∀ pr ∈ ps, EPEq properties σ m1 m2 pr.1 pr.2
+  hcons : (m1.hcons.map (fun h => (⟨σ h.hi, h.rel, σ h.lo⟩ : HCons))).Perm m2.hcons
+  icons : (m1.icons.map (fun c => (⟨σ c.left, c.rel, σ c.right⟩ : ICons))).Perm m2.icons
+
+def MRSIso (properties : Bool) (m1 m2 : MRS) : Prop := ∃ σ, MRSIsoVia properties σ m1 m2
+
+instance (w : List Char) : Decidable (WordOK w) := by unfold WordOK; exact inferInstance
+instance (s : List Char) : Decidable (noLower s) := by unfold noLower; exact inferInstance
+instance (s : List Char) : Decidable (hasLower s) := by unfold hasLower; exact inferInstance
+instance (r : Role) : Decidable (RoleOK r) := by unfold RoleOK; exact inferInstance
+instance (s : String) : Decidable (HRelOK s) := by unfold HRelOK; exact inferInstance
+instance (s : String) : Decidable (IRelOK s) := by unfold IRelOK; exact inferInstance
+instance (s : String) : Decidable (PredOK s) := by unfold PredOK; exact inferInstance
+instance (s : String) : Decidable (CargOK s) := by unfold CargOK; exact inferInstance
+
+/-- Boolean form of `InSpace`, evaluated by the driver on every generated case -/
+def inSpaceb (properties : Bool) (m : MRS) : Bool :=
+  namesOKb m && decide (NoParallel m)
+  && decide (∀ e ∈ m.rels, ∀ a ∈ e.args, RoleOK a.1)
+  && decide (∀ e ∈ m.rels, (e.args.map (·.1)).Nodup)
+  && decide (∀ h ∈ m.hcons, HRelOK h.rel)
+  && decide (∀ c ∈ m.icons, IRelOK c.rel)
+  && decide (∀ e ∈ m.rels, PredOK e.predicate)
+  && decide (∀ e ∈ m.rels, ∀ c, e.carg = some c → CargOK c)
+  && (match mkIsoGraph properties m with
+      | .ok g => cleanGraph g
+      | .error _ => true)
+
 end Verif.C06
